@@ -60,7 +60,7 @@ Proof.
 Qed.
 
 (* a state built from [s] by advancing the leased counter of [host] and adding [created] *)
-Lemma ext_created host s s' ctr' created :
+Lemma ext_created host s s' ctr' (created : list chan) :
   is_Some (s_eng s !! host) -> host <> node_free ->
   default 0 (s_ctr s !! host) <= ctr' -> ctr' <= max_local ->
   s_ctr s' = <[host := ctr']> (s_ctr s) -> s_free s' = s_free s ->
@@ -138,9 +138,9 @@ Proof.
     assert (er2 <> EOk) by (intros ->; discriminate).
     destruct (Hbad H) as [-> ->].
     apply (ext_created host s1 s2 ctr []); try assumption; try reflexivity; try lia; try tauto.
-    - intros c Hc. inversion Hc.
-    - intros k c Hk. left. eauto.
-    - intros n k Hk. left. exact Hk. }
+    all: try (intros c Hc; inversion Hc; fail).
+    all: try (intros k c Hk; left; eauto; fail).
+    all: try (intros n k Hk; left; exact Hk). }
   assert (Hok2 : er2 = EOk).
   { unfold is_ok in Eok2. apply negb_false_iff, bool_decide_eq_true in Eok2. exact Eok2. }
   destruct (Hgood Hok2) as (Hle & Hmax' & _). specialize (Hcr Hok2).
@@ -162,4 +162,268 @@ Proof.
   intros [= <- <- <-]. eapply ext_trans; [exact X1|].
   apply (ext_created host s1 _ ctr' created); try assumption; try reflexivity.
   intros k c Hk. simpl in Hk. destruct (tab_insert_lookup _ _ _ _ Hk) as [H0|[Hin ->]]; [left; eauto|right; auto].
+Qed.
+
+(* ---- free channels (bootstrapper) *)
+Lemma ext_created_free s s' ctr' (created : list chan) :
+  (forall n, is_Some (s_eng s !! n) -> n <> node_free) ->
+  s_free s <= ctr' -> ctr' <= max_local -> s_ctr s' = s_ctr s -> s_free s' = ctr' ->
+  (forall n, is_Some (s_eng s' !! n) <-> is_Some (s_eng s !! n)) ->
+  (forall c, c ∈ created -> c_lease c = node_free /\ s_free s < c_lkey c /\ c_lkey c <= ctr') ->
+  (forall k c, s_tab s' !! k = Some c ->
+     (exists c0, s_tab s !! k = Some c0 /\ kf c0 = kf c) \/
+     (exists c1, c1 ∈ created /\ kf c1 = kf c /\ k = chan_key c)) ->
+  (forall n, eng_sub (eng_of s' n) (eng_of s n)) ->
+  ext s s'.
+Proof.
+  intros Hnn Hle Hmax Hc Hf Hnodes Hcr Htab Heng.
+  assert (Hctr : forall l, ctr_of s' l = if decide (l = node_free) then ctr' else ctr_of s l).
+  { intros l. unfold ctr_of. rewrite Hc, Hf. destruct (l =? node_free) eqn:El.
+    - apply N.eqb_eq in El. subst l. destruct (decide (node_free = node_free)); [reflexivity|congruence].
+    - apply N.eqb_neq in El. destruct (decide (l = node_free)); [congruence|reflexivity]. }
+  assert (Hfree : ctr_of s node_free = s_free s) by (unfold ctr_of; rewrite N.eqb_refl; reflexivity).
+  constructor.
+  - intros l. rewrite Hctr. destruct (decide (l = node_free)) as [->|]; [rewrite Hfree; assumption|lia].
+  - intros H l. rewrite Hctr. destruct (decide (l = node_free)); [assumption|apply H].
+  - assumption.
+  - intros k c H. destruct (Htab k c H) as [?|(c1 & Hin & Hk & ->)]; [left; assumption|].
+    right. split; [reflexivity|]. destruct (Hcr c1 Hin) as (El & Hlo & Hhi).
+    unfold kf in Hk. injection Hk as E1 E2. rewrite <- E1, <- E2, El.
+    split; [left; reflexivity|]. rewrite Hctr, Hfree.
+    destruct (decide (node_free = node_free)); [split; assumption|congruence].
+  - intros n k H. left. apply Heng, H.
+Qed.
+
+Lemma foldl_upd_kf (upd : list chan) : forall (t0 : table) t er,
+  foldl (fun '(t, er) c =>
+           if negb (is_ok er) then (t, er) else
+           match t !! chan_key c with
+           | Some old => (<[chan_key c := set_lidx old (c_lidx c)]> t, EOk)
+           | None => (t, ENotFound) end) (t0, EOk) upd = (t, er) ->
+  forall k c, t !! k = Some c -> exists c', t0 !! k = Some c' /\ kf c' = kf c.
+Proof.
+  assert (G : forall upd (t0 : table) er0 t er,
+    foldl (fun '(t, er) c =>
+           if negb (is_ok er) then (t, er) else
+           match t !! chan_key c with
+           | Some old => (<[chan_key c := set_lidx old (c_lidx c)]> t, EOk)
+           | None => (t, ENotFound) end) (t0, er0) upd = (t, er) ->
+    forall k c, t !! k = Some c -> exists c', t0 !! k = Some c' /\ kf c' = kf c).
+  { clear upd. induction upd as [|u upd IH]; intros t0 er0 t er; cbn [foldl].
+    - intros [= <- <-] k c H. eauto.
+    - destruct (negb (is_ok er0)); [apply IH|].
+      destruct (t0 !! chan_key u) as [old|] eqn:Eo; [|apply IH].
+      intros H k c Hk. destruct (IH _ _ _ _ H k c Hk) as (c' & Hc' & Hkf).
+      destruct (decide (k = chan_key u)) as [->|Hne].
+      + rewrite lookup_insert in Hc'. injection Hc' as <-. exists old. split; [assumption|].
+        rewrite <- Hkf. destruct old; reflexivity.
+      + rewrite lookup_insert_ne in Hc' by congruence. eauto. }
+  intros t0 t er. apply G.
+Qed.
+
+Lemma auto_index_lease c : c_lease (auto_index c) = node_free.
+Proof. reflexivity. Qed.
+
+Lemma create_free_ext host s chs o s' er out :
+  Inv s -> is_Some (s_eng s !! host) -> Forall (fun c => c_lease c = node_free) chs ->
+  create_free true host s chs o = (s', er, out) -> ext s s'.
+Proof.
+  intros I Hn Hall. unfold create_free. cbv zeta.
+  destruct (negb (names_required chs)); [intros [= <- <- <-]; apply ext_refl|].
+  destruct (if o_over o then _ else _) as [[s1 er1] chs1] eqn:E1.
+  assert (X1 : ext s s1 /\ forall c, c ∈ chs1 -> c ∈ chs \/ exists k, s_tab s !! k = Some c).
+  { destruct (o_over o); [eapply delete_overwritten_ext; eassumption|].
+    injection E1 as <- <- <-. split; [apply ext_refl|auto]. }
+  destruct X1 as [X1 Hmem].
+  destruct (negb (is_ok er1)); [intros [= <- <- <-]; exact X1|].
+  pose proof (Inv_ext _ _ I X1) as I1.
+  set (chs1b := chs1 ++ (auto_index <$> filter (fun c : chan => negb (c_lkey c =? 0) && needs_link c) chs1)).
+  destruct (retrieve_assign true (s_tab s1) (s_free s1) chs1b (o_retr o)) as [[[[er2 ctr'] chs2] created] amb] eqn:E2.
+  destruct (retrieve_assign_spec _ _ _ _ _ _ _ _ _ (Inv_tab_pos _ I1) E2) as [Hbad Hgood].
+  assert (Hnn : forall n, is_Some (s_eng s1 !! n) -> n <> node_free)
+    by (intros n Hnode; destruct (inv_nodes _ I1 n Hnode); lia).
+  assert (Hmax : s_free s1 <= max_local).
+  { pose proof (inv_ctr _ I1 node_free) as H. unfold ctr_of in H. rewrite N.eqb_refl in H. exact H. }
+  set (s2 := upd_amb (St (s_tab s1) (s_eng s1) (s_ctr s1) ctr' (s_amb s1)) amb).
+  destruct (negb (is_ok er2)) eqn:Eok2.
+  { intros [= <- <- <-]. eapply ext_trans; [exact X1|].
+    assert (er2 <> EOk) by (intros ->; discriminate).
+    destruct (Hbad H) as [-> ->].
+    apply (ext_created_free s1 s2 (s_free s1) []); try assumption; try reflexivity; try lia; try tauto.
+    all: try (intros c Hc; inversion Hc; fail).
+    all: try (intros k c Hk; left; eauto; fail).
+    all: try (intros n k Hk; exact Hk). }
+  assert (Hok2 : er2 = EOk).
+  { unfold is_ok in Eok2. apply negb_false_iff, bool_decide_eq_true in Eok2. exact Eok2. }
+  destruct (Hgood Hok2) as (Hle & Hmax' & Hj).
+  assert (Hcr : forall c, c ∈ created -> c_lease c = node_free /\ s_free s1 < c_lkey c /\ c_lkey c <= ctr').
+  { intros c Hin.
+    destruct (created_bounds _ _ _ _ Hj c Hin) as (c0 & Hc0 & Hz & Hl & Hlo & Hhi).
+    split; [|split; assumption]. rewrite Hl.
+    unfold chs1b in Hc0. apply elem_of_app in Hc0 as [Hc0|Hc0].
+    - destruct (Hmem c0 Hc0) as [Hin0|(k & Hk)].
+      + rewrite Forall_forall in Hall. apply Hall, Hin0.
+      + destruct (inv_tab _ I k c0 Hk) as (_ & _ & Hpos & _). lia.
+    - apply elem_of_list_fmap in Hc0 as (x & -> & _). reflexivity. }
+  match goal with |- context [foldl ?f ?a created] => set (chs3 := foldl f a created) end.
+  match goal with |- context [foldl ?f (chs3, []) ?l] => destruct (foldl f (chs3, []) l) as [chs4 upd] end.
+  match goal with |- context [tab_insert (s_tab s2) ?l] => set (created' := l) end.
+  destruct (foldl _ (tab_insert (s_tab s2) created', EOk) upd) as [t2 er3] eqn:E3.
+  assert (Hfinal : ext s1 (upd_tab s2 t2)).
+  { apply (ext_created_free s1 _ ctr' created); try assumption; try reflexivity; try tauto.
+    - intros k c Hk. cbn [upd_tab s_tab] in Hk.
+      destruct (foldl_upd_kf _ _ _ _ E3 k c Hk) as (c' & Hc' & Hkf).
+      destruct (tab_insert_lookup _ _ _ _ Hc') as [H0|[Hin Hkey]].
+      + left. exists c'. split; [exact H0|exact Hkf].
+      + right. unfold created' in Hin. apply elem_of_list_fmap in Hin as (c1 & Hc1 & Hin1).
+        exists c1. split; [assumption|].
+        assert (Hk1 : kf c1 = kf c').
+        { rewrite Hc1. destruct (needs_link c1); [|reflexivity].
+          destruct (find_auto_index created c1); [|reflexivity]. destruct c1; reflexivity. }
+        split; [congruence|].
+        rewrite Hkey. unfold chan_key. unfold kf in Hkf. injection Hkf as -> ->. reflexivity.
+    - intros n k Hk. exact Hk. }
+  destruct (negb (is_ok er3)); intros [= <- <- <-]; (eapply ext_trans; [exact X1|exact Hfinal]).
+Qed.
+
+(* ---- create as a whole *)
+Definition remote_ext (remote : N -> st -> list chan -> copts -> st * res) : Prop :=
+  forall p s chs o s' r, Inv s -> remote p s chs o = (s', r) -> ext s s'.
+
+Lemma create_peers_ext remote : remote_ext remote ->
+  forall peers s chs o acc s' er out, Inv s ->
+  create_peers remote s peers chs o acc = (s', er, out) -> ext s s'.
+Proof.
+  intros HR. induction peers as [|p peers IH]; intros s chs o acc s' er out I; cbn [create_peers].
+  - intros [= <- <- <-]. apply ext_refl.
+  - destruct (remote p s _ o) as [s1 [er1 out1]] eqn:E1. apply HR in E1; [|exact I].
+    destruct (is_ok er1); [|intros [= <- <- <-]; exact E1].
+    intros H. eapply ext_trans; [exact E1|]. eapply IH; [|exact H]. eapply Inv_ext; eassumption.
+Qed.
+
+Lemma Forall_filter_lease (p : chan -> bool) (l : list chan) (P : chan -> Prop) :
+  (forall c, p c = true -> P c) -> Forall P (filter (fun c => p c) l).
+Proof.
+  intros H. apply Forall_forall. intros c Hc. apply elem_of_list_filter in Hc as [Hp _].
+  apply H. destruct (p c); [reflexivity|contradiction].
+Qed.
+
+Lemma create_on_ext validate remote host s chs o s' r :
+  remote_ext remote -> Inv s -> is_Some (s_eng s !! host) ->
+  create_on true validate remote host s chs o = (s', r) -> ext s s'.
+Proof.
+  intros HR I Hn. unfold create_on.
+  destruct (if validate then _ else _) as [er0 amb0].
+  set (s0 := upd_amb s amb0). assert (E0 : ext s s0) by apply ext_upd_amb.
+  destruct (negb (is_ok er0)); [intros [= <- <-]; exact E0|].
+  destruct (normalise host chs) as [chs1|]; [|intros [= <- <-]; exact E0].
+  match goal with |- context [upd_amb s0 ?b] => set (sa := upd_amb s0 b) end.
+  assert (Ea : ext s sa) by (eapply ext_trans; [exact E0|apply ext_upd_amb]).
+  pose proof (Inv_ext _ _ I Ea) as Ia.
+  match goal with |- context [create_peers remote sa ?ps ?cs o []] =>
+    destruct (create_peers remote sa ps cs o []) as [[s1 er1] out1] eqn:E1; set (chs2 := cs) in * end.
+  apply (create_peers_ext _ HR) in E1; [|exact Ia].
+  match goal with |- context [upd_amb s1 ?b] => set (s1' := upd_amb s1 b) end.
+  assert (E1' : ext s s1') by (eapply ext_trans; [exact Ea|]; eapply ext_trans; [exact E1|apply ext_upd_amb]).
+  pose proof (Inv_ext _ _ I E1') as I1.
+  destruct (negb (is_ok er1)); [intros [= <- <-]; exact E1'|].
+  destruct (match filter is_free chs2 with [] => _ | _ => _ end) as [[s2 er2] out2] eqn:E2.
+  assert (X2 : ext s1' s2).
+  { destruct (filter is_free chs2) as [|f fs] eqn:Ef; [injection E2 as <- <- <-; apply ext_refl|].
+    destruct (host =? node_boot) eqn:Eb.
+    - rewrite <- Ef in E2. eapply create_free_ext; [exact I1| | |exact E2].
+      + apply (ext_nodes _ _ E1'), Hn.
+      + apply Forall_filter_lease. intros c Hc. unfold is_free in Hc. apply N.eqb_eq in Hc. exact Hc.
+    - destruct (remote node_boot s1' (f :: fs) o) as [sx [erx outx]] eqn:Ex. injection E2 as <- <- <-.
+      eapply HR; [exact I1|exact Ex]. }
+  assert (E2' : ext s s2) by (eapply ext_trans; eassumption).
+  destruct (negb (is_ok er2)); [intros [= <- <-]; exact E2'|].
+  destruct (create_gateway true host s2 _ o) as [[s3 er3] out3] eqn:E3.
+  assert (X3 : ext s2 s3).
+  { eapply create_gateway_ext; [eapply Inv_ext; eassumption| | |exact E3].
+    - apply (ext_nodes _ _ E2'), Hn.
+    - apply Forall_filter_lease. intros c Hc. apply N.eqb_eq in Hc. exact Hc. }
+  destruct (negb (is_ok er3)); intros [= <- <-]; (eapply ext_trans; [exact E2'|exact X3]).
+Qed.
+
+Lemma remote0_ext : remote_ext remote0.
+Proof. intros p s chs o s' r _ [= <- <-]. apply ext_refl. Qed.
+
+Lemma create_remote_ext validate : remote_ext (create_remote true validate).
+Proof.
+  intros p s chs o s' r I. unfold create_remote.
+  destruct (is_node s p) eqn:En; cbn [negb]; [|intros [= <- <-]; apply ext_refl].
+  destruct (create_on true validate remote0 p s chs o) as [s1 [er out]] eqn:E1. intros [= <- <-].
+  apply ext_rollback. eapply create_on_ext; [apply remote0_ext|exact I|apply is_node_true; exact En|exact E1].
+Qed.
+
+Lemma create_ext validate host s chs o s' r :
+  Inv s -> is_Some (s_eng s !! host) -> create true validate host s chs o = (s', r) -> ext s s'.
+Proof. intros I Hn. apply create_on_ext; [apply create_remote_ext|exact I|exact Hn]. Qed.
+
+(* ---- every operation *)
+Definition gateway_of (o : op) : N :=
+  match o with
+  | Create gw _ _ _ | Rename gw _ _ | Delete gw _ | DeleteByName gw _ | Restart gw | Bump gw _ _ => gw
+  end.
+(* operations are issued through a node of the cluster *)
+Definition op_wf (s : st) (o : op) : Prop := is_Some (s_eng s !! gateway_of o).
+
+Lemma ext_bump_free s v : s_free s <= v -> v <= max_local ->
+  ext s (St (s_tab s) (s_eng s) (s_ctr s) v (s_amb s)).
+Proof.
+  intros Hle Hmax.
+  assert (Hctr : forall l, ctr_of (St (s_tab s) (s_eng s) (s_ctr s) v (s_amb s)) l =
+                           if l =? node_free then v else ctr_of s l).
+  { intros l. unfold ctr_of. simpl. destruct (l =? node_free); reflexivity. }
+  constructor.
+  - intros l. rewrite Hctr. unfold ctr_of. destruct (l =? node_free); lia.
+  - intros H l. rewrite Hctr. destruct (l =? node_free); [assumption|apply H].
+  - intros n. simpl. tauto.
+  - intros k c H. left. eauto.
+  - intros n k H. left. exact H.
+Qed.
+Lemma ext_bump_leased s n v : default 0 (s_ctr s !! n) <= v -> v <= max_local -> n <> node_free ->
+  ext s (St (s_tab s) (s_eng s) (<[n:=v]> (s_ctr s)) (s_free s) (s_amb s)).
+Proof.
+  intros Hle Hmax Hnf.
+  assert (Hctr : forall l, ctr_of (St (s_tab s) (s_eng s) (<[n:=v]> (s_ctr s)) (s_free s) (s_amb s)) l =
+                           if decide (l = n) then v else ctr_of s l).
+  { intros l. unfold ctr_of. simpl. destruct (l =? node_free) eqn:El.
+    - apply N.eqb_eq in El. subst. destruct (decide (node_free = n)); [congruence|reflexivity].
+    - destruct (decide (l = n)) as [->|]; [rewrite lookup_insert; reflexivity|].
+      rewrite lookup_insert_ne by congruence. reflexivity. }
+  assert (Hn : ctr_of s n = default 0 (s_ctr s !! n)).
+  { unfold ctr_of. destruct (n =? node_free) eqn:El; [apply N.eqb_eq in El; congruence|reflexivity]. }
+  constructor.
+  - intros l. rewrite Hctr. destruct (decide (l = n)) as [->|]; [rewrite Hn; assumption|lia].
+  - intros H l. rewrite Hctr. destruct (decide (l = n)); [assumption|apply H].
+  - intros n0. simpl. tauto.
+  - intros k c H. left. eauto.
+  - intros n0 k H. left. exact H.
+Qed.
+
+Theorem step_ext validate s o s' r :
+  Inv s -> op_wf s o -> step true validate s o = (s', r) -> ext s s'.
+Proof.
+  intros I Hwf. destruct o as [gw chs retr over|gw keys names|gw keys|gw names|n|n free delta];
+    unfold op_wf in Hwf; cbn [gateway_of] in Hwf; cbn [step].
+  - apply create_ext; assumption.
+  - apply rename_keys_ext; assumption.
+  - apply delete_keys_ext; assumption.
+  - apply delete_by_name_ext; assumption.
+  - intros [= <- <-]. apply ext_refl.
+  - assert (Hnf : n <> node_free) by (destruct (inv_nodes _ I n Hwf); lia).
+    destruct free.
+    + destruct (n =? node_boot); [|intros [= <- <-]; apply ext_refl].
+      destruct (ctr_add (s_free s) delta) as [v|] eqn:Ec; intros [= <- <-]; [|apply ext_refl].
+      apply ctr_add_spec in Ec as [-> Hmax]. apply ext_bump_free; lia.
+    + destruct (ctr_add _ delta) as [v|] eqn:Ec; intros [= <- <-]; [|apply ext_refl].
+      apply ctr_add_spec in Ec as [-> Hmax]. apply ext_bump_leased; [lia|assumption|assumption].
+Qed.
+
+Theorem step_Inv validate s o : Inv s -> op_wf s o -> Inv (step true validate s o).1.
+Proof.
+  intros I Hwf. destruct (step true validate s o) as [s' r] eqn:E. simpl.
+  eapply Inv_ext; [exact I|]. eapply step_ext; eassumption.
 Qed.
